@@ -100,6 +100,19 @@ def term_val(v, data_names, toks, none_names=()):
 
 
 def _case(args):
+    """(grammars that import rules from the module file of shapelib are loaded next to it: their trees hold namespaced terminals such as shapemod__MA)"""
+    if '%import .shapemod' not in args[0]:
+        return _case_(args, {})
+    import tempfile, shutil, os
+    d = tempfile.mkdtemp(prefix='larkverif_c16_')
+    try:
+        open(os.path.join(d, 'shapemod.lark'), 'w').write(shapelib.SHAPEMOD)
+        return _case_(args, {'source_path': os.path.join(d, 'main.lark')})
+    finally:
+        shutil.rmtree(d, ignore_errors=True)
+
+
+def _case_(args, extra):
     g, seed = args
     from lark import Lark, Tree, Token
     from lark.visitors import Transformer, Transformer_NonRecursive, Transformer_InPlace, Transformer_InPlaceRecursive
@@ -108,20 +121,23 @@ def _case(args):
     opts = dict(maybe_placeholders=rng.random() < 0.5, keep_all_tokens=rng.random() < 0.2)
     try:
         with guarded(5):
-            plain = Lark(g, parser='lalr', **opts)
+            plain = Lark(g, parser='lalr', **opts, **extra)
     except (GrammarError, LarkError):
         return {'nobuild': True}
     visible = sorted({shapelib.label_of(r) for r in plain.rules if not r.origin.name.startswith('_')})
     tvisible = sorted({t.name for t in plain.terminals if t.name not in plain.ignore_tokens})
     names = [n for n in visible if rng.random() < 0.6]
     tnames = [t for t in tvisible if rng.random() < 0.3]
+    spaced = [t for t in tvisible if '__' in t]
+    if spaced and rng.random() < 0.5:
+        tnames = [t for t in spaced if rng.random() < 0.7] or spaced[:1]       # callbacks for namespaced (imported) terminals only
     style = rng.choice(['plain', 'plain', 'inline', 'tree'])
     none_names = [n for n in names if rng.random() < 0.2]
     none_tnames = [t for t in tnames if rng.random() < 0.3]
     T = make_transformer(Transformer, names, tnames, style, none_names=none_names, none_tnames=none_tnames)
     try:
         with guarded(5):
-            emb = Lark(g, parser='lalr', transformer=T(), **opts)
+            emb = Lark(g, parser='lalr', transformer=T(), **opts, **extra)
     except (GrammarError, LarkError):
         return {'nobuild': True}
     recs = []
@@ -184,7 +200,7 @@ def children_first(ordered):
 def run(ctx, res):
     rng = random.Random(ctx['seed'] * 1000003 + 16)
     N = tier_scale(ctx['tier'], 2500, 30000) * (3 if ctx['deepen'] else 1)
-    jobs = [(shapelib.gen_grammar(rng), rng.randrange(1 << 30)) for _ in range(N)]
+    jobs = [(shapelib.gen_grammar(rng, imports=True), rng.randrange(1 << 30)) for _ in range(N)]
     for f in ctx['known']:
         if f['id'] == 'F8' and f['status'] == 'open':
             from lark import Lark, Transformer
